@@ -202,7 +202,13 @@ func (c *Component) publishAAARequest(ct *Circuit, pkt *dataplane.ParsedPacket, 
 	// tuple, not the client MAC: a CPE swap must not change the
 	// subscriber. MAC is recorded on the circuit for show/accounting.
 	username := fmt.Sprintf("%s.%d.%d", match.Name, ct.AccessSVLAN, ct.AccessCVLAN)
-	policyName := match.Group.GetPolicyName(pkt.OuterVLAN)
+	// The policy of the range this (S-VLAN, C-VLAN) pair is classified to; looking
+	// the group up again by S-VLAN alone would pick the first range on that S-VLAN,
+	// whatever its C-VLAN.
+	policyName := match.Group.AAAPolicy
+	if match.VR != nil && match.VR.AAA != nil && match.VR.AAA.Policy != "" {
+		policyName = match.VR.AAA.Policy
+	}
 	aaaAttrs := make(map[string]string)
 	var usernameFallback bool
 
